@@ -2,6 +2,7 @@
 
 Parses the CURRENT `pywhy_graphs/config.py` (EDGE_TO_VALUE_MAPPING, endpoint enums) and the per-pair
 endpoint case analyses of `graph_to_clearn`, `clearn_to_graph`, `pcalg_to_graph`, `graph_to_pcalg`
+and of `tetrad_to_graph`
 (fragment: if/elif/else, and/or/not, ==, !=, `in`, has_edge(u,v[,layer]), enum constants, assignment of
 enum constants to the endpoint variables / matrix cells, add_edge calls, raise, print) and emits
 `.cache/gen/C14Gen.lean`: the generated definitions (namespace C14Gen) followed by theorems, closed by
@@ -380,6 +381,54 @@ def tr_graph_to_pcalg(ctx, mod):
     return ("def pcRemap (c : C14.Cls) (x y : Int) : Int × Int :=\n  (%s : Option (Int × Int)).getD (x, y)\n" % expr)
 
 
+# ----------------------------------------------------------------------------- tetrad_to_graph
+def tr_tetrad_to_graph(ctx, mod):
+    fn = find_fn(mod, "tetrad_to_graph")
+    target = None
+    for node in ast.walk(fn):
+        if isinstance(node, ast.If) and ast.unparse(node.test) == "len(words) > 0 and words[0][-1] == '.'":
+            target = node
+    if target is None:
+        raise Untranslatable("tetrad_to_graph: edge-line branch not found")
+    body = target.body
+    head = [ast.unparse(s) for s in body[:5]]
+    want = ["next_nodes_line = False", "node1 = words[1]", "node2 = words[3]", "end1 = words[2][0]", "end2 = words[2][-1]"]
+    if head != want:
+        raise Untranslatable("tetrad_to_graph: token extraction changed")
+    tet = ctx.cfg["enums"]["TetradEndpoint"]
+
+    def ch(v):
+        if not (isinstance(v, str) and len(v) == 1 and v not in "'\\"):
+            raise Untranslatable("tetrad endpoint character")
+        return "'%s'" % v
+
+    def val(e):
+        if isinstance(e, ast.Constant):
+            return ch(e.value)
+        en, mem = enum_ref(e)
+        if en != "TetradEndpoint":
+            raise Untranslatable("tetrad enum")
+        return ch(tet[mem])
+
+    def test(e):
+        b = boolop(e, test)
+        if b:
+            return b
+        if isinstance(e, ast.Compare) and len(e.ops) == 1 and isinstance(e.ops[0], ast.Eq) \
+                and isinstance(e.left, ast.Name) and e.left.id in ("end1", "end2"):
+            return "(%s == %s)" % ("e1" if e.left.id == "end1" else "e2", val(e.comparators[0]))
+        raise Untranslatable("tetrad_to_graph test " + ast.unparse(e))
+
+    def assign(st):
+        if isinstance(st, ast.Assign) and len(st.targets) == 1 and isinstance(st.targets[0], ast.Name) \
+                and st.targets[0].id in ("end1", "end2"):
+            return "let %s : Char := %s;" % ("e1" if st.targets[0].id == "end1" else "e2", val(st.value))
+        return None
+    expr = block(body[5:], "some ops", test, assign, lambda st: add_edge_op(ctx, st, "node1", "node2", "G"))
+    return ("def tetDecLine (e1 e2 : Char) : List C14.Op :=\n  let ops : List C14.Op := []\n"
+            "  (%s : Option (List C14.Op)).getD []\n" % expr)
+
+
 # ----------------------------------------------------------------------------- output
 THEOREMS = r'''
 /-! generated definitions = committed hand models, on the complete finite input tables -/
@@ -388,6 +437,8 @@ def codes : List Int := [-3, -2, -1, 0, 1, 2, 3, 4, 5, 6, 7, 8]
 theorem gen_clEncPair_eq : ∀ a b c d e f : Bool, clEncPair ⟨a, b, c, d, e, f⟩ = C14.clEncPair ⟨a, b, c, d, e, f⟩ := by decide
 theorem gen_clDecPair_eq : ∀ c ∈ C14.allCls, ∀ x ∈ codes, ∀ y ∈ codes, clDecPair c x y = C14.clDecPair c x y := by decide
 theorem gen_pcDecPair_eq : ∀ c ∈ C14.allCls, ∀ x ∈ codes, ∀ y ∈ codes, pcDecPair c x y = C14.pcDecPair c x y := by decide
+theorem gen_tetDecLine_eq : ∀ e1 ∈ ['-', '>', '<', 'o', 'x'], ∀ e2 ∈ ['-', '>', '<', 'o', 'x'],
+    tetDecLine e1 e2 = C14.tetDecLine e1 e2 := by decide
 theorem gen_pcRemap_eq : ∀ c ∈ C14.allCls, ∀ x ∈ codes, ∀ y ∈ codes, pcRemap c x y = C14.pcRemap c x y := by decide
 
 /-! the round-trip tables, re-proved for the generated definitions themselves -/
@@ -435,6 +486,7 @@ def generate(repo):
     out.append(tr_clearn_to_graph(ctx, cl))
     out.append(tr_pcalg_to_graph(ctx, pc))
     out.append(tr_graph_to_pcalg(ctx, pc))
+    out.append(tr_tetrad_to_graph(ctx, ast.parse(_src(repo, "pywhy_graphs/export/tetrad.py"))))
     out.append(THEOREMS)
     out.append("end C14Gen")
     return "\n".join(out) + "\n"
